@@ -1,6 +1,7 @@
-// Unit c26_roots -- property C26 "Roots and powers are correctly truncated" (Decimal part)
+// Unit c26_roots -- property C26 "Roots and powers are correctly truncated"
 // Real code: radix-common/src/math/decimal.rs -- Decimal::{checked_sqrt, checked_cbrt, checked_nth_root,
-// checked_powi} (+ is_zero, is_negative, CheckedMul::checked_mul which they call), over the ASSUMED
+// checked_powi} (+ is_zero, is_negative, CheckedMul::checked_mul which they call) and the same six
+// functions of PreciseDecimal in radix-common/src/math/precise_decimal.rs, over the ASSUMED
 // contracts of the bnum wrappers (shims/bigint.rs: sqrt/cbrt = floor root / root truncated toward zero,
 // pow, *, /, conversions) and of num_bigint::BigInt (shims/numbigint.rs).
 use vstd::prelude::*;
@@ -35,6 +36,27 @@ pub mod env {
     pub broadcast axiom fn ax_decimal_consts()
         ensures #![trigger Decimal::ZERO.0] #![trigger Decimal::ONE.0]
             Decimal::ZERO.0.v() == 0, Decimal::ONE.0.v() == one();
+
+    /*@item radix-common/src/math/precise_decimal.rs :: struct PreciseDecimal
+    @derive Clone, Copy
+    @*/
+    /*@item radix-common/src/math/precise_decimal.rs :: type InnerPreciseDecimal
+    @*/
+    // ASSUMED: derived PartialEq on the one-field tuple struct compares the field
+    impl PartialEq for PreciseDecimal { #[verifier::external_body] fn eq(&self, o: &PreciseDecimal) -> (r: bool) ensures r == (self.0.v() == o.0.v()) { unimplemented!() } }
+    impl vstd::std_specs::cmp::PartialEqSpecImpl for PreciseDecimal {
+        open spec fn obeys_eq_spec() -> bool { true }
+        open spec fn eq_spec(&self, o: &PreciseDecimal) -> bool { self.0.v() == o.0.v() }
+    }
+    pub open spec fn pone() -> int { 1_000_000_000_000_000_000_000_000_000_000_000_000 }
+    // ASSUMED constants, as above (kani/l0_bigint::decimal_constants)
+    impl PreciseDecimal {
+        #[verifier::external_body] pub const ZERO: PreciseDecimal = PreciseDecimal(I256::ZERO);
+        #[verifier::external_body] pub const ONE: PreciseDecimal = PreciseDecimal(I256::ONE);
+    }
+    pub broadcast axiom fn ax_precise_consts()
+        ensures #![trigger PreciseDecimal::ZERO.0] #![trigger PreciseDecimal::ONE.0]
+            PreciseDecimal::ZERO.0.v() == 0, PreciseDecimal::ONE.0.v() == pone();
 }
 
 pub mod unit {
@@ -44,7 +66,8 @@ pub mod unit {
     use super::numbigint::*;
     use super::env::*;
     use super::env::Decimal;
-    broadcast use {group_bigint, ax_decimal_consts, ax_bigint_of};
+    use super::env::PreciseDecimal;
+    broadcast use {group_bigint, ax_decimal_consts, ax_precise_consts, ax_bigint_of};
 
     // ---- oracle (from the property statement), on sub-units: value = x / o  (o = 10^18 for Decimal, 10^36 for PreciseDecimal) -----------------
     // r/one is the square root of x/one truncated to 18 places  <=>  r^2 <= x*one < (r+1)^2
@@ -280,8 +303,9 @@ pub mod unit {
             ensures ret is None <==> self.0.v() < 0,
                     ret matches Some(r) ==> sqrt_ok(one(), self.0.v(), r.0.v()),
         @before <<let sqrt>>
-            proof { let x = self.0.v();
-                    assert forall|r: int| is_floor_root(x * one(), 2, r) implies 0 <= r <= i192_max() && sqrt_ok(one(), x, r) by {
+            proof { let x = self.0.v(); let big = correct_nb.v();
+                    assert(big == x * one());
+                    assert forall|r: int| is_floor_root(big, 2, r) implies 0 <= r <= i192_max() && sqrt_ok(one(), x, r) by {
                         lemma_ipow_small(r); lemma_ipow_small(r + 1); lemma_sqrt_fits(one(), b192(), x, r); assert(b192() == i192_max() + 1); } }
         @*/
         /*@fn radix-common/src/math/decimal.rs :: impl Decimal :: fn checked_cbrt
@@ -315,7 +339,7 @@ pub mod unit {
                     lemma_ipow_mono(1, one(), (n - 1) as nat); lemma_ipow_01((n - 1) as nat);
                     assert(correct_nb.v() == x * p);
                     assert(x * p >= 0 <==> x >= 0) by (nonlinear_arith) requires p >= 1;
-                    assert forall|r: int| is_trunc_root(correct_nb.v(), n as nat, r) implies in_i192(r) by { lemma_nth_root_fits(one(), b192(), x, n as nat, r); } }
+                    assert forall|r: int| is_trunc_root(correct_nb.v(), n as nat, r) implies i192_min() < r <= i192_max() by { lemma_nth_root_fits(one(), b192(), x, n as nat, r); assert(b192() == i192_max() + 1); } }
         @*/
         /*@fn radix-common/src/math/decimal.rs :: impl Decimal :: fn checked_powi
         @sig
@@ -352,6 +376,103 @@ pub mod unit {
         @entry
             proof { lemma_mul_width(self.0.v() * other.0.v()); }
         @subst <<c_192.map(Self)>> => <<c_192.map(|x: I192| -> (r: Decimal) ensures r.0 == x { Decimal(x) })>> why: Verus rejects a tuple-struct constructor used as a function value; the closure is its eta-expansion
+        @*/
+    }
+
+    // =================================== PreciseDecimal (36 places, I256) ========================
+    pub proof fn lemma_mul_width_precise(p: int)
+        ensures in_i256(tdiv(p, pone())) ==> in_i384(p)
+    {
+        if p > i384_max() { assert(tdiv(p, pone()) == p / pone()); assert(p / pone() > i256_max()); }
+        if p < i384_min() { assert(tdiv(p, pone()) == -((-p) / pone())); assert((-p) / pone() > i256_max() + 1); }
+    }
+    impl PreciseDecimal {
+        /*@fn radix-common/src/math/precise_decimal.rs :: impl PreciseDecimal :: fn is_zero
+        @sig
+            ensures ret == (self.0.v() == 0)
+        @*/
+        /*@fn radix-common/src/math/precise_decimal.rs :: impl PreciseDecimal :: fn is_negative
+        @sig
+            ensures ret == (self.0.v() < 0)
+        @*/
+        /*@fn radix-common/src/math/precise_decimal.rs :: impl PreciseDecimal :: fn checked_sqrt
+        @sig
+            ensures ret is None <==> self.0.v() < 0,
+                    ret matches Some(r) ==> sqrt_ok(pone(), self.0.v(), r.0.v()),
+        @before <<let sqrt>>
+            proof { let x = self.0.v(); let big = correct_nb.v();
+                    assert(big == x * pone());
+                    assert forall|r: int| is_floor_root(big, 2, r) implies 0 <= r <= i256_max() && sqrt_ok(pone(), x, r) by {
+                        lemma_ipow_small(r); lemma_ipow_small(r + 1); lemma_sqrt_fits(pone(), b256(), x, r); assert(b256() == i256_max() + 1); } }
+        @*/
+        /*@fn radix-common/src/math/precise_decimal.rs :: impl PreciseDecimal :: fn checked_cbrt
+        @sig
+            ensures ret matches Some(r) && cbrt_ok(pone(), self.0.v(), r.0.v()),
+        @entry
+            proof { assert(PreciseDecimal::ZERO.0.v() == 0); assert(cube(0int) == 0 && cube(0int + 1) == 1); }
+        @before <<let correct_nb>>
+            proof { lemma_ipow_small(pone()); }
+        @after <<let correct_nb>>
+            proof { let x = self.0.v(); let big = correct_nb.v();
+                    assert(big == x * pone() * pone());
+                    assert forall|r: int| is_floor_root(big, 3, r) && x >= 0 implies 0 <= r <= i256_max() && cube(r) <= big < cube(r + 1) by {
+                        lemma_ipow_small(r); lemma_ipow_small(r + 1); lemma_cbrt_fits(pone(), b256(), x, r); }
+                    let nbig = -big;
+                    assert forall|r: int| #[trigger] is_floor_root(nbig, 3, r) && x < 0 implies 0 <= r <= i256_max() && cube(r) <= nbig < cube(r + 1) by {
+                        lemma_ipow_small(r); lemma_ipow_small(r + 1); lemma_cbrt_fits(pone(), b256(), -x, r); } }
+        @*/
+        /*@fn radix-common/src/math/precise_decimal.rs :: impl PreciseDecimal :: fn checked_nth_root
+        @sig
+            ensures ret is None <==> ((self.0.v() < 0 && n % 2 == 0) || n == 0),
+                    ret matches Some(r) ==> nth_root_ok(pone(), self.0.v(), n as nat, r.0.v()),
+        @entry
+            proof { let x = self.0.v(); lemma_ipow_small(x); lemma_ipow_small(x + 1); lemma_ipow_small(-x); lemma_ipow_small(-x + 1); lemma_ipow_small(pone());
+                    lemma_ipow_01(n as nat); assert(PreciseDecimal::ZERO.0.v() == 0);
+                    assert(0 * ipow(pone(), (n - 1) as nat) == 0) by (nonlinear_arith);
+                    assert(n >= 1 ==> is_floor_root(0, n as nat, 0));
+                    assert(n >= 1 && x == 0 ==> nth_root_ok(pone(), x, n as nat, 0)); }
+        @after <<let correct_nb>>
+            proof { let x = self.0.v(); let p = ipow(pone(), (n - 1) as nat);
+                    lemma_ipow_mono(1, pone(), (n - 1) as nat); lemma_ipow_01((n - 1) as nat);
+                    assert(correct_nb.v() == x * p);
+                    assert(x * p >= 0 <==> x >= 0) by (nonlinear_arith) requires p >= 1;
+                    assert forall|r: int| is_trunc_root(correct_nb.v(), n as nat, r) implies i256_min() < r <= i256_max() by { lemma_nth_root_fits(pone(), b256(), x, n as nat, r); assert(b256() == i256_max() + 1); } }
+        @*/
+        /*@fn radix-common/src/math/precise_decimal.rs :: impl PreciseDecimal :: fn checked_powi
+        @sig
+            ensures exp == 0 ==> (ret matches Some(r) && r.0.v() == pone()),
+                    exp == 1 ==> ret == Some(*self),
+                    exp >= 1 ==> (ret matches Some(r) ==> mag_ok(pone(), self.0.v(), exp as int, r.0.v())),
+                    exp < 0 ==> (ret matches Some(r) ==> mag_ok_neg(pone(), self.0.v(), -(exp as int), r.0.v())),
+            decreases (if exp < 0 { 1 - exp as int } else { exp as int })
+        @entry
+            let ghost e0 = exp as int;
+            proof { lemma_ipow_small(iabs(self.0.v())); lemma_ipow_small(pone()); }
+        @after <<let exp = mul(>>
+            proof { assert(exp as int == e0 * -1); assert(exp == -e0);
+                    assert forall|r: int| mag_ok(pone(), sub_256.v(), exp as int, r) implies mag_ok_neg(pone(), self.0.v(), exp as int, r) by {
+                        lemma_recip_step(pone(), self.0.v(), sub_256.v(), exp as int, r); } }
+        @after <<let exp = div(exp, 2)>>
+            proof { assert forall|r: int| mag_ok(pone(), sub_256.v(), exp as int, r) implies mag_ok(pone(), self.0.v(), e0, r) by {
+                        lemma_sq_step(pone(), self.0.v(), sub_256.v(), exp as int, r); } }
+        @after <<let b = sub_pdec>>
+            proof { lemma_sq_step(pone(), self.0.v(), sub_256.v(), exp as int, b.0.v());
+                    lemma_odd_step(pone(), self.0.v(), b.0.v(), exp as int, mul_spec(pone(), self.0.v(), b.0.v())); }
+        @closure 1 := |x: i64, y: i64| -> (r: Option<i64>) ensures y == 2 && x >= 0 ==> r == Some((x / 2) as i64)
+        @closure 2 := |x: i64, y: i64| -> (r: Option<i64>) ensures r matches Some(v) ==> v == x - y
+        @closure 3 := |x: i64, y: i64| -> (r: Option<i64>) ensures r matches Some(v) ==> v == x * y
+        @*/
+    }
+    impl CheckedMul<PreciseDecimal> for PreciseDecimal {
+        type Output = Self;
+        /*@fn radix-common/src/math/precise_decimal.rs :: impl CheckedMul<PreciseDecimal> for PreciseDecimal :: fn checked_mul
+        @sig
+            ensures ret matches Some(r) ==> r.0.v() == mul_spec(pone(), self.0.v(), other.0.v()),
+                    // (the wide -> narrow conversion of the bnum wrappers rejects -2^255: known finding under C24)
+                    ret is Some <==> (in_i256(mul_spec(pone(), self.0.v(), other.0.v())) && mul_spec(pone(), self.0.v(), other.0.v()) != i256_min()),
+        @entry
+            proof { lemma_mul_width_precise(self.0.v() * other.0.v()); }
+        @subst <<c_256.map(Self)>> => <<c_256.map(|x: I256| -> (r: PreciseDecimal) ensures r.0 == x { PreciseDecimal(x) })>> why: Verus rejects a tuple-struct constructor used as a function value; the closure is its eta-expansion
         @*/
     }
 }
